@@ -224,7 +224,10 @@ def run_history(seed, k, mon):
         periodic = [bool(rng.random() < 0.7) for _ in range(dim)]
         if not any(periodic):
             periodic[0] = True
-    box = [(0.0, float(rng.uniform(0.8, 1.5))) for _ in range(3)]
+    # the unit of length is the user's: millimetres or kilometres (kernel
+    # sums then are ~1e6 or ~1e-9 in 3-d; the documented mean does not care)
+    L = 1.0 if method == 'order1' else [1.0, 1.0, 0.01, 1.0, 2000.0][(k // 5) % 5]
+    box = [(0.0, L * float(rng.uniform(0.8, 1.5))) for _ in range(3)]
     variable = bool(rng.random() < 0.75)
     pas = make_sources(rng, dim, narr, periodic, box, variable)
     lin = (float(rng.normal()), [float(rng.normal()) if ax < dim else 0.0
@@ -248,13 +251,13 @@ def run_history(seed, k, mon):
             pad = 0.0 if (periodic and periodic[ax]) else 0.25 * (hi - lo)
             t[:, ax] = rng.uniform(lo - pad, hi + pad, size=n)
             if periodic and periodic[ax]:
-                t[:, ax] = np.clip(t[:, ax], lo + 1e-6, hi - 1e-6)
+                t[:, ax] = np.clip(t[:, ax], lo + 1e-6 * L, hi - 1e-6 * L)
         # a few points far from every particle (along a non-periodic axis)
         free = [ax for ax in range(dim) if not (periodic and periodic[ax])]
         if free and n > 3:
             far = rng.random(n) < 0.1
             t[far, free[0]] += 3.0 * (box[free[0]][1] - box[free[0]][0])
-        if rng.random() < 0.15:
+        if rng.random() < 0.15 and L >= 1.0:
             # coordinates handed over as integers (np.mgrid[0:3, 0:3]...)
             t = np.round(t).astype(np.int64)
             for ax in range(dim):
@@ -324,7 +327,7 @@ def run_history(seed, k, mon):
             return ('target-h', 'op %d: target points have h in [%r, %r], '
                     'largest source h is %r' % (step, float(got.min()),
                                                 float(got.max()), want))
-    desc = dict(k=k, dim=dim, method=method, kernel=kname or 'default',
+    desc = dict(k=k, dim=dim, method=method, kernel=kname or 'default', L=L,
                 narr=narr, periodic=periodic, variable=variable, ops=[])
     auto = rng.random() < 0.3
     kw = dict(kernel=K, domain_manager=dm, method=method)
@@ -372,7 +375,7 @@ def run_history(seed, k, mon):
                 n = pa.get_number_of_particles(real=True)
                 for ax, nm in enumerate('xyz'[:dim]):
                     v = pa.get(nm, only_real_particles=True)
-                    v += rng.normal(size=n) * 0.03
+                    v += rng.normal(size=n) * 0.03 * L
                     lo, hi = box[ax]
                     if periodic and periodic[ax]:
                         v[:] = lo + np.mod(v - lo, hi - lo)
